@@ -109,6 +109,7 @@ func NewIfdReader(l zerolog.Logger) ifdReader {
 func (ir *ifdReader) ResetReader(r io.Reader) {
 	ir.buffer.clear()
 	ir.reader = r
+	ir.readErr = nil
 }
 
 // SetCustomTagParser sets a custom tag parser
@@ -133,6 +134,7 @@ type ifdReader struct {
 	tiffHeaderOffset uint32
 	firstIfdOffset   uint32
 	exifLength       uint32
+	readErr          error // first error of the underlying reader; it is not asked again afterwards
 }
 
 func (ir *ifdReader) readIfdHeader(ifd ifds.Ifd) (err error) {
@@ -294,14 +296,19 @@ func (ir *ifdReader) fastRead(n int) (buf []byte, err error) {
 	if ir.exifLength != 0 && int(ir.po)+n > int(ir.exifLength) {
 		return nil, imagetype.ErrDataLength
 	}
+	if ir.readErr != nil {
+		return nil, ir.readErr
+	}
 	if br, ok := ir.reader.(BufferedReader); ok {
 		if buf, err = br.Peek(n); err != nil {
+			ir.readErr = err
 			if ir.logLevelError() {
 				ir.logError(err).Msg("Peek error")
 			}
 			return
 		}
 		if n, err = br.Discard(len(buf)); err != nil {
+			ir.readErr = err
 			if ir.logLevelError() {
 				ir.logError(err).Msg("Discard error")
 			}
@@ -315,6 +322,7 @@ func (ir *ifdReader) fastRead(n int) (buf []byte, err error) {
 	}
 	// a Read may return fewer bytes than requested: read until the buffer is full
 	if n, err = io.ReadFull(ir.reader, ir.buffer.buf[:n]); err != nil {
+		ir.readErr = err
 		ir.po += uint32(n)
 		if ir.logLevelError() {
 			ir.logError(err).Msg("Read error")
